@@ -1,8 +1,12 @@
+from checks import finite
 from checks.generic import run_components
 
-ASSUME = ["A-INT: Python/numpy ints treated as mathematical integers", "A-FLOAT: floats treated as reals"]
+ASSUME = ["A-FLOAT", "C99 naming scheme (f suffix, c prefix) as oracle for math functions; float kernels may call the double sibling",
+          "UFL rejects ordering/real-only functions of complex arguments (so (real-only function, complex argument) pairs are outside the quantifier)",
+          "basis functions and geometry are real: conj acts only on coefficients/constants/literals (factorization contracts)",
+          "numeric agreement of the four kernels and UFL's complex_mode lowering are not decided"]
 
 
 def run(tier, seed):
-    return run_components("C09", tier, seed, ['e1', 'e3desc'], ASSUME,
-                          ["kernelvc (E2 walker; scoping mirrors C/formatter.py)", "UFL form data as oracle for extents"])
+    return run_components("C09", tier, seed, ["e1", finite.c09_tables, finite.c09_complex_switch, "e3desc"], ASSUME,
+                          ["runtime/descriptors.py"])
